@@ -142,11 +142,20 @@ func (e *OpEngine) RunLossGradientChecks() {
 		if name == "MSE" {
 			regs = regions[:1]
 		}
+		lossT := e.typeOf(core.PkgLosses, name)
 		for _, d := range patterns("n", rank) {
-			for _, computed := range []bool{false, true} {
+			for ci, computed := range []bool{false, true, false} {
 				for _, rg := range regs {
+					// third variant: the zero value of the exported loss type instead of the constructor's result
+					zeroValue := ci == 2
+					if zeroValue && (lossT == nil || rg.name != regs[0].name) {
+						continue
+					}
 					d, computed, rg := d, computed, rg
 					label := fmt.Sprintf("%s dims=%s prediction=%s region=%s", name, shapeStr(d), map[bool]string{false: "leaf", true: "k·q (computed)"}[computed], rg.name)
+					if zeroValue {
+						label += " zero-value receiver"
+					}
 					e.RunBody(key, label, 400, func() {
 						e.M.Base = sizeBase(d)
 						id := spec.IdentIdx(rank)
@@ -165,11 +174,18 @@ func (e *OpEngine) RunLossGradientChecks() {
 							f[sym.Neg(T).Key()] = sym.SignBigNeg
 						}
 						sym.ActiveFacts = f
-						out, ok := e.call(key, label, ctor, nil)
-						if !ok {
-							return
+						var lossObj interp.Value
+						var out interp.Outcome
+						var ok bool
+						if zeroValue {
+							lossObj = e.M.NewStruct(lossT, "zero-value:"+name)
+						} else {
+							out, ok = e.call(key, label, ctor, nil)
+							if !ok {
+								return
+							}
+							lossObj = out.Results[0]
 						}
-						lossObj := out.Results[0]
 						leaf := e.mkTensor(leafName, TensorArg{Dims: d, Tracked: true, Rng: rg.predRng})
 						t := e.mkTensor("T", TensorArg{Dims: d, Rng: spec.Rng(0, 1)})
 						p := leaf
